@@ -330,6 +330,8 @@ def table_field(fp):
     # drop receiver prefix up to the format object
     for i, p in enumerate(parts):
         if p in ("space", "atom", "compound", "statement", "sentence", "task"):
+            if i == len(parts) - 1:
+                return None          # a bare local / struct field that happens to be called `sentence` or `task` is not a table field
             return ".".join(parts[i:])
     return None
 
